@@ -175,7 +175,11 @@ impl<T: Copy + Clone + Number + Signed + std::fmt::Debug> Polynomial<T> {
             t.coeffs = vec![ T::zero(); r.degree()? - v.degree()? + 1 ];
             t.coeffs[ r.degree()? - v.degree()? ] = r.coeffs[ r.degree()? ] / v.coeffs[ v.degree()? ];
             q = q + t.clone();
+            let lead = r.degree()?;
             r = r - ( t * v.clone() );
+            // The leading term is removed by construction; in floating point the
+            // subtraction above may leave a rounding residue instead of an exact zero.
+            r.coeffs[ lead ] = T::zero();
             r.trim();
             q.trim();
             count += 1;
